@@ -356,7 +356,8 @@ func (fr *frame) join(st *State, reach string) {
 	clock, _ := ex.ghostGet(st, "clock")
 	ex.havocAll(st, "join with spawned goroutines")
 	// ghost state written by the goroutines is forgotten as well (the clock only moves forward)
-	for k, srt := range ex.keySort {
+	for _, k := range sortedKeys(ex.keySort) {
+		srt := ex.keySort[k]
 		if len(k) > 2 && k[:2] == "X|" && k != "X|ctx.parent" && k != "X|ctx.cancels" {
 			st.H[k] = ex.freshConst("jg", srt)
 		}
